@@ -50,6 +50,14 @@ func buildScript(name string) (*origin.Site, string) {
 			{Kind: media.AAC, TimeScale: 90000, AAC: aac, Base: 900000, SampleDur: 1920}}
 		mustRendition(rng, site, base+"stream.m3u8", "ts", tr, 10, 5)
 		return site, base + "stream.m3u8"
+	case "ts-long":
+		// two MPEG-TS segments of 130 video units each: more than the sample queue between the
+		// stream processor and a track processor holds (100), so the stream processor is regularly
+		// blocked handing samples over while the track processor paces them out
+		tr := []*origin.Track{{Kind: media.H264, TimeScale: 90000, Params: testParamsH264, Base: 900000, SampleDur: 900},
+			{Kind: media.AAC, TimeScale: 90000, AAC: aac, Base: 900000, SampleDur: 1920}}
+		mustRenditionN(rng, site, base+"stream.m3u8", "ts", tr, 30, 2, 130)
+		return site, base + "stream.m3u8"
 	case "fmp4":
 		tr := []*origin.Track{{Kind: media.H264, TimeScale: 90000, Params: testParamsH264, Base: 900000, SampleDur: 1800},
 			{Kind: media.AAC, TimeScale: 48000, AAC: aac, Base: 480000, SampleDur: 1024}}
@@ -98,8 +106,12 @@ func buildScript(name string) (*origin.Site, string) {
 
 // mustRendition registers a VOD playlist of nSeg segments.
 func mustRendition(rng *rand.Rand, site *origin.Site, plURL, container string, tracks []*origin.Track, tagBase, nSeg int) {
+	mustRenditionN(rng, site, plURL, container, tracks, tagBase, nSeg, 4)
+}
+
+func mustRenditionN(rng *rand.Rand, site *origin.Site, plURL, container string, tracks []*origin.Track, tagBase, nSeg, perSeg int) {
 	st := &origin.Stream{Container: container, Tracks: tracks}
-	if err := st.Build(nSeg, 4, tagBase); err != nil {
+	if err := st.Build(nSeg, perSeg, tagBase); err != nil {
 		panic(err)
 	}
 	pl := &origin.Playlist{URL: plURL, TargetDuration: 1, Type: "VOD"}
@@ -330,7 +342,7 @@ func enumerateC12(script string, baseRequests, baseUnits int, tier string) []c12
 
 func checkC12(tier string, seed int64) int {
 	rep := ev.NewReporter("C12")
-	scripts := []string{"ts", "fmp4", "fmp4-multi", "ll"}
+	scripts := []string{"ts", "fmp4", "fmp4-multi", "ll", "ts-long"}
 	obs := map[string]int{}
 	sigs := map[string]bool{}
 	var samples []any
